@@ -134,21 +134,27 @@ def r2(ctx):
     ctx.need(lu, "C11.R2: murder_workers never reads the heartbeat")
     okk = True
     why = ""
+    # OSError: the worker's temp file is gone; ValueError: the SIGCHLD handler reaped the worker and *closed* its temp file
+    # between the snapshot of WORKERS and this read (fileno() of a closed file)
+    accepts = {"OSError": ("OSError", "Exception", "EnvironmentError", "IOError", "BaseException"), "ValueError": ("ValueError", "Exception", "BaseException")}
     for L in lu:
-        hs = [b for b, l in L.out if l == "exc" and b.kind == "handler" and (b.ast.type is None or any(x in norm(b.ast.type) for x in ("OSError", "Exception", "EnvironmentError", "IOError")))]
-        if not hs:
-            okk, why = False, "no clause catches OSError from last_update()"
+        for exc_cls, names_ in accepts.items():
+            hs = [b for b, l in L.out if l == "exc" and b.kind == "handler" and (b.ast.type is None or any(x in [y.strip() for y in norm(b.ast.type).strip("()").split(",")] for x in names_))]
+            if not hs:
+                okk, why = False, "no clause catches %s from last_update() (%s)" % (exc_cls, "temp file closed by the SIGCHLD handler that just reaped this worker" if exc_cls == "ValueError" else "temp file gone")
+                break
+            ex = Explorer(f, atom_of=atom_of, tracked=["ABORTED"])
+            pre = ex.run(loop, {TO: 30, "ABORTED": False}, stop=lambda n: n is L, start_label="true")
+            for o in pre:
+                if o.kind != "stop":
+                    continue
+                ex2 = Explorer(f, atom_of=atom_of, tracked=["ABORTED"])
+                outs = ex2.run(hs[0], dict(o.env), stop=lambda n: n is loop, watch={n.id: "kill" for c in kills for n in nodes_with(f, c)})
+                for o2 in outs:
+                    if o2.kind != "stop" or "kill" in o2.events:
+                        okk, why = False, "after %s the iteration %s" % (exc_cls, "sends a signal" if "kill" in o2.events else "ends in %s" % o2.kind)
+        if not okk:
             break
-        ex = Explorer(f, atom_of=atom_of, tracked=["ABORTED"])
-        pre = ex.run(loop, {TO: 30, "ABORTED": False}, stop=lambda n: n is L, start_label="true")
-        for o in pre:
-            if o.kind != "stop":
-                continue
-            ex2 = Explorer(f, atom_of=atom_of, tracked=["ABORTED"])
-            outs = ex2.run(hs[0], dict(o.env), stop=lambda n: n is loop, watch={n.id: "kill" for c in kills for n in nodes_with(f, c)})
-            for o2 in outs:
-                if o2.kind != "stop" or "kill" in o2.events:
-                    okk, why = False, "after the error the iteration %s" % ("sends a signal" if "kill" in o2.events else "ends in %s" % o2.kind)
     ctx.check("C11.R2", okk, key(f, "stat-error-skips"), site(f), "an error reading the heartbeat is not tolerated (worker just exited): %s" % (why or "the master loop would crash"), "OSError -> next worker")
     # `aborted` starts False and is reset nowhere else
     fw = repo.func("gunicorn.workers.base.Worker.__init__")
@@ -186,6 +192,19 @@ def r3(ctx):
                 ctx.check("C11.R3", a not in r, key(f, "serve-cycle-beats|" + a.text[:40]), site(f, a),
                           "`%s` can be repeated in a loop of %s that never calls self.notify(): under a never-empty backlog a healthy worker stops beating and is killed for inactivity" % (a.text[:60], f.short),
                           "every serving cycle passes notify()")
+            # a polling loop (one that sleeps) beats on every round, `alive` loop or not: the drain phase after TERM / HUP /
+            # max_requests can last graceful_timeout, longer than timeout
+            for w2 in [x for x in walk_own(f.node) if isinstance(x, ast.While) and x not in loops]:
+                sleeps = [c for c in ast.walk(w2) if isinstance(c, ast.Call) and (repo.call_target(f.module, f, c) or "").rsplit(".", 1)[-1] == "sleep"]
+                if not sleeps:
+                    continue
+                head2 = [n for n in g.nodes_of(w2) if n.kind == "join"][0]
+                nt = [n for c in method_calls(f, "notify") if tail(c.func.value) == "self" and any(a is w2 for a in f.module.ancestors(c)) for n in nodes_with(f, c)]
+                be = [(t, "true") for t in g.tests() if t.stmt is w2]
+                r2_ = g.reachable(be, without_nodes=nt, follow_exc=False, stop=lambda n: n is head2)
+                ctx.check("C11.R3", bool(nt) and head2 not in r2_, key(f, "notify-in-polling-loop|%s" % norm(w2.test)[:40]), site(f, w2.test),
+                          "the polling loop `while %s` of %s sleeps without self.notify() on every round: a worker that is draining its connections (healthy, possibly still serving) "
+                          "stops beating and is killed for inactivity once the drain lasts longer than `timeout`" % (norm(w2.test)[:60], f.short), "notify on every round")
             w = loops[0]
             # blocking calls in the loop
             for c in [x for x in ast.walk(w) if isinstance(x, ast.Call)]:
